@@ -69,14 +69,47 @@ def read_names(path, universe, defnames):
     return secs
 
 
+DECOY = None
+
+
+def make_decoy(wd):
+    """a working directory holding files named like the built-in force fields (other values): the built-in files are the
+    packaged ones wherever the program is started from"""
+    global DECOY
+    d = os.path.join(wd, "decoy-cwd")
+    os.makedirs(d, exist_ok=True)
+    for ffn in gen.FORCE_FIELDS:
+        lines = []
+        for ln in open(os.path.join(DAT, ffn + ".DAT")):
+            w = ln.split()
+            if len(w) >= 4 and not ln.startswith("#"):
+                try:
+                    w[2] = f"{float(w[2]) + 0.123:.4f}"
+                    ln = "\t".join(w) + "\n"
+                except ValueError:
+                    pass
+            lines.append(ln)
+        for nm in (ffn.upper(), ffn.lower()):
+            for suf in ("", ".DAT", ".dat"):
+                open(os.path.join(d, nm + suf), "w").writelines(lines)
+            for suf in (".names", ".NAMES"):
+                open(os.path.join(d, nm + suf), "w").write("<?xml version='1.0'?>\n<patches>\n</patches>\n")
+    DECOY = d
+
+
 def real_map(ff_name, userff=None, usernames=None):
     core.use_repo()
     from pdb2pqr import forcefield
 
+    cwd = os.getcwd()
     try:
+        if DECOY:
+            os.chdir(DECOY)
         ff = forcefield.Forcefield(ff_name, gen.definitions(), userff, usernames)
     except Exception as e:
         return [], type(e).__name__
+    finally:
+        os.chdir(cwd)
     out = []
     for res, obj in ff.map.items():
         for atom, a in obj.atoms.items():
@@ -109,8 +142,11 @@ def random_pair(rng, wd, k):
             if rng.random() < 0.15:
                 f.write("\n")
     patterns = ["ALA", "GLY", "WAT", "[NC]?ALA", "[NC]?...$", "(A)LA", "N(ALA)", "G..", "X..", "SER"]
+    if k % 3 == 0:
+        # names files shared between parameter sets: sections (with atom entries) for residues this one does not have
+        patterns += ["ZZZ", "HOH", "D[ACGT]3?", "SER"]
     secs = []
-    for _ in range(rng.randint(0, 4)):
+    for _ in range(rng.randint(0, 4) + (2 if k % 3 == 0 else 0)):
         pat = rng.choice(patterns)
         use = ""
         if rng.random() < 0.5:
@@ -222,6 +258,8 @@ def run(ctx):
     ctx.trusted += ["vlib/checks/c01.py read_dat/read_names (independent readers of the documented formats)", "TLC 1.8"]
     ffs = gen.FORCE_FIELDS
     traces = {}
+    os.makedirs(ctx.work, exist_ok=True)
+    make_decoy(ctx.work)
     for ff in ffs:
         traces[ff] = trace_for(ff, os.path.join(DAT, ff + ".DAT"), os.path.join(DAT, ff + ".names"), ff.lower())
     udat, unames = os.path.join(DATA, "custom-ff.dat"), os.path.join(DATA, "custom.names")
